@@ -11,7 +11,17 @@ counts per subscription read off the boundary log.
 
 A second, oracle-only family covers RAISING finally actions (which escape into the
 emitter and therefore have no machine counterpart): the action must still have
-been invoked exactly once."""
+been invoked exactly once.
+
+Oracle-only "per subscription" family (run_plan): ONE built observable is subscribed once or twice --
+sequentially (the second subscription after the first one's timeline) or overlapping (timelines interleaved) --
+every upstream subscription is driven by its own timeline, each subscriber may dispose between inputs or from
+INSIDE its k-th on_next, and the upstream may be deaf (keeps pushing after it was disposed).  Effects are
+attributed per subscription: using's resources are numbered (resource j is the one created during the j-th
+subscribe() call and must be released exactly once, at that subscription's stop); the shared finally actions
+must run once at the stopping input of EACH stopped subscription (after its terminal notification), never
+elsewhere; every subscriber must see its own upstream's notifications unchanged.  The faulty-upstream family
+likewise runs its whole procedure twice on one observable (sequentially / overlapping)."""
 import json
 
 import k2
@@ -100,8 +110,8 @@ def gen_params(rng, name):
     return {}
 
 
-def make_instance(name, p, raised):
-    """-> (build(env, statics, pre) -> observable, coq machine text)"""
+def make_instance(name, p, raised, ColdSource=ColdSource):
+    """-> (build(env, pre) -> observable, coq machine text); ColdSource: the upstream class to mount on"""
     import reactivex as rx
     from reactivex import operators as ops
     from reactivex.disposable import Disposable
@@ -135,6 +145,9 @@ def make_instance(name, p, raised):
                     return None
                 if rf != "res":
                     raise UserError(rf)
+                if hasattr(env, "res_effect"):          # run_plan: resources are numbered in creation order
+                    rid = env.new_resource()
+                    return Disposable(lambda: env.res_effect(RELEASED, rid))
                 env.effect(CREATED)
                 return Disposable(lambda: env.effect(RELEASED))
 
@@ -319,6 +332,241 @@ def oracle(case, res):
     return None
 
 
+# ---- one observable, several subscriptions, re-entrant dispose (oracle only) ---------------
+
+class PlanEnv(k2m.Env):
+    """log entries are (tag, kind, a, b, who): who = subscriber index for emissions, resource number for
+    CREATED / RELEASED, None otherwise"""
+
+    def __init__(self, subs, deaf):
+        super().__init__()
+        self.subs, self.deaf = subs, deaf
+        self.up = []                # upstream subscription records [observer, live], in creation order
+        self.n_res = 0
+
+    def effect(self, n):
+        self.log.append((self.tag, "effect", n, None, None))
+
+    def new_resource(self):
+        rid = self.n_res
+        self.n_res += 1
+        self.log.append((self.tag, "effect", CREATED, None, rid))
+        return rid
+
+    def res_effect(self, n, rid):
+        self.log.append((self.tag, "effect", n, None, rid))
+
+
+class PlanSource:
+    """the j-th upstream subscription made in the whole run belongs to downstream subscription j (every operator
+    here subscribes upstream at most once per subscribe(), synchronously): it delivers subs[j]['pre'] inside
+    subscribe() and is then driven by the plan's ('ev', j, ...) steps"""
+
+    def __init__(self, env, pre=None):
+        import reactivex
+        from reactivex.disposable import Disposable
+
+        def subscribe(observer, scheduler=None):
+            j = len(env.up)
+            rec = [observer, True]
+            env.up.append(rec)
+            env.log.append((env.tag, "sub", j, None, None))
+            for ev in (env.subs[j]["pre"] if j < len(env.subs) else []):
+                deliver(observer, ev_py(ev))
+
+            def dispose():
+                if rec[1]:
+                    rec[1] = False
+                    env.log.append((env.tag, "unsub", j, None, None))
+            return Disposable(dispose)
+        self.observable = reactivex.Observable(subscribe)
+
+
+def run_plan(case):
+    """case: dict(name, params, subs=[{pre, budget}], steps=[['sub', i] | ['ev', i, ev] | ['disp', i]], deaf)"""
+    raised = []
+    build, _ = make_instance(case["name"], case["params"], raised, ColdSource=PlanSource)
+    env = PlanEnv(case["subs"], case["deaf"])
+    obs = build(env, None)
+    n = len(case["subs"])
+    handles, seen, self_disposed, escapes = [None] * n, [0] * n, [None] * n, []
+
+    def subscriber(i):
+        budget = case["subs"][i].get("budget")
+
+        def on_next(v):
+            env.log.append((env.tag, "emit", "N", v, i))
+            seen[i] += 1
+            if budget is not None and seen[i] >= budget and handles[i] is not None and self_disposed[i] is None:
+                self_disposed[i] = (env.tag, len(env.log) - 1)
+                handles[i].dispose()
+        return (on_next, lambda e: env.log.append((env.tag, "emit", "E", e, i)),
+                lambda: env.log.append((env.tag, "emit", "C", None, i)))
+
+    for k, st in enumerate(case["steps"]):
+        env.tag = k + 1
+        try:
+            if st[0] == "sub":
+                handles[st[1]] = obs.subscribe(*subscriber(st[1]))
+            elif st[0] == "disp":
+                if handles[st[1]] is not None:
+                    handles[st[1]].dispose()
+            elif st[1] < len(env.up):
+                rec = env.up[st[1]]
+                if rec[1] or env.deaf:
+                    deliver(rec[0], ev_py(st[2]))
+        except Exception as e:
+            escapes.append((env.tag, repr(e)))
+    return {"log": env.log, "raised": raised, "escapes": escapes, "self_disposed": self_disposed}
+
+
+def plan_stop(case, res, i):
+    """(tag, log index or None) at which subscription i stopped: its first terminal notification, its re-entrant
+    dispose (inside the k-th on_next), or its dispose step -- whichever comes first; None: still running"""
+    c = []
+    term = next(((tag, idx) for idx, (tag, kind, a, b, who) in enumerate(res["log"])
+                 if kind == "emit" and who == i and a in "EC"), None)
+    if term:
+        c.append(term)
+    if res["self_disposed"][i]:
+        c.append(res["self_disposed"][i])
+    subbed = False
+    for k, st in enumerate(case["steps"]):
+        subbed = subbed or (st[0] == "sub" and st[1] == i)
+        if st[0] == "disp" and st[1] == i and subbed:
+            c.append((k + 1, None))
+            break
+    return min(c, key=lambda x: (x[0], x[1] if x[1] is not None else 10**9)) if c else None
+
+
+def plan_expected(case, res, i):
+    """what subscriber i must receive if the operator changes nothing: its upstream's notifications (prefix inside
+    subscribe(), then its 'ev' steps) up to the first terminal one / its dispose step / its k-th element"""
+    out, budget, nn = [], case["subs"][i].get("budget"), 0
+    sub_tag = next((k + 1 for k, st in enumerate(case["steps"]) if st[0] == "sub" and st[1] == i), None)
+    if sub_tag is None:
+        return out
+    seq = [(sub_tag, ev) for ev in case["subs"][i]["pre"]]
+    for k, st in enumerate(case["steps"]):
+        if k + 1 > sub_tag and st[1] == i:
+            seq.append((k + 1, st[2] if st[0] == "ev" else ["disp"]))
+    for tag, ev in seq:
+        if ev[0] == "disp":
+            break
+        out.append((tag, ev[0], ev[1] if ev[0] in "NE" else None))
+        if ev[0] in "EC":
+            break
+        nn += 1
+        # a re-entrant dispose needs the subscription handle: elements delivered inside subscribe() cannot trigger it
+        if budget is not None and nn >= budget and tag > sub_tag:
+            break
+    return out
+
+
+def plan_received(res, i):
+    return [(tag, a, b if a == "N" else (err_id(b) if a == "E" else None))
+            for (tag, kind, a, b, who) in res["log"] if kind == "emit" and who == i]
+
+
+def oracle_plan(case, res):
+    name, p, n = case["name"], case["params"], len(case["subs"])
+    if res["escapes"] and not res["raised"]:
+        return f"exception escaped: {res['escapes'][:2]}"
+    stops = [plan_stop(case, res, i) for i in range(n)]
+    sub_tags = [next((k + 1 for k, st in enumerate(case["steps"]) if st[0] == "sub" and st[1] == i), None) for i in range(n)]
+    log = res["log"]
+
+    def matched(effs, what):
+        """effs [(tag, idx)] must be: exactly one per stopped subscription, at its stopping input, after its
+        terminal notification / re-entrant dispose point"""
+        left = list(effs)
+        for i, st in enumerate(stops):
+            if st is None:
+                continue
+            hit = next((e for e in left if e[0] == st[0] and (st[1] is None or e[1] > st[1])), None)
+            if hit is None:
+                at = [e[0] for e in effs]
+                return (f"subscription {i + 1} of {n} stopped at step {st[0]} but {what} did not run then"
+                        f"{' (after its terminal notification)' if st[1] is not None else ''}: it ran at steps {at}")
+            left.remove(hit)
+        if left:
+            return (f"{what} ran {len(effs)} times (steps {[e[0] for e in effs]}) for {sum(s is not None for s in stops)} "
+                    f"stopped subscription(s) (stops at steps {[s[0] for s in stops if s]})")
+        return None
+
+    if name == "using":
+        created = [(tag, who) for (tag, kind, a, b, who) in log if kind == "effect" and a == CREATED]
+        if p["rf"] == "res":
+            if sorted(t for t, _ in created) != sorted(t for t in sub_tags if t is not None):
+                return (f"resource factory ran at steps {[t for t, _ in created]}, subscribe() was called at steps "
+                        f"{sub_tags}: one resource per subscription")
+            for i, st in enumerate(stops):
+                rid = next(who for t, who in created if t == sub_tags[i])
+                rel = [(tag, idx) for idx, (tag, kind, a, b, who) in enumerate(log)
+                       if kind == "effect" and a == RELEASED and who == rid]
+                if st is None:
+                    if rel:
+                        return f"the resource of subscription {i + 1} was disposed although that subscription is still running"
+                elif len(rel) != 1:
+                    return f"the resource of subscription {i + 1} of {n} was disposed {len(rel)} times (it stopped at step {st[0]})"
+                elif rel[0][0] != st[0] or (st[1] is not None and rel[0][1] < st[1]):
+                    return (f"the resource of subscription {i + 1} of {n} was disposed at step {rel[0][0]}, the subscription "
+                            f"stopped at step {st[0]}")
+        elif any(a == RELEASED for (_, kind, a, _, _) in log if kind == "effect"):
+            return "a resource was disposed although none was created"
+        if p["obf"] != "ok" or p["rf"] not in ("res", "none"):
+            return None
+    if name in FINALIZER:
+        effs = [(tag, idx) for idx, (tag, kind, a, b, who) in enumerate(log) if kind == "effect" and a == FINALIZER[name]]
+        v = matched(effs, f"the {name} action")
+        if v:
+            return v
+    if not res["raised"]:
+        for i in range(n):
+            if plan_received(res, i) != plan_expected(case, res, i):
+                return (f"{name}: subscriber {i + 1} of {n} received {plan_received(res, i)}, its own upstream delivered "
+                        f"{plan_expected(case, res, i)}")
+    return None
+
+
+def gen_plan(rng, name, mode):
+    """mode: 'sequential' | 'overlapping' (two subscriptions) | 'reentrant' (one, disposing inside on_next)"""
+    def timeline(i, budget_ok):
+        pre = []
+        if rng.random() < 0.3:
+            pre = [["N", rng.randrange(10)] for _ in range(rng.choice([0, 1, 2]))]
+            r = rng.random()
+            if r < 0.4:
+                pre.append(["C"])
+            elif r < 0.6:
+                pre.append(["E", rng.choice([11, 12])])
+        evs = [["ev", i, ev_json(ev)] for (_, _, ev) in k2m.gen_events(rng, 1, maxlen=4)]
+        sub = {"pre": pre}
+        n_el = sum(1 for e in evs if e[2][0] == "N")
+        if budget_ok and n_el:
+            sub["budget"] = rng.randint(1, n_el)
+        if rng.random() < (0.25 if budget_ok else 0.45):
+            evs.insert(rng.randrange(len(evs) + 1), ["disp", i])
+        return sub, evs
+    params = gen_params(rng, name)
+    params["sched"] = False
+    if mode == "reentrant":
+        s0, t0 = timeline(0, True)
+        return {"name": name, "params": params, "subs": [s0], "steps": [["sub", 0]] + t0, "deaf": rng.random() < 0.4,
+                "mode": mode}
+    s0, t0 = timeline(0, rng.random() < 0.2)
+    s1, t1 = timeline(1, rng.random() < 0.2)
+    if mode == "sequential":
+        if rng.random() < 0.7 and ["disp", 0] not in t0:
+            t0.append(["disp", 0])
+        steps = [["sub", 0]] + t0 + [["sub", 1]] + t1
+    else:
+        a, b, steps = list(t0), [["sub", 1]] + t1, [["sub", 0]]
+        while a or b:
+            steps.append((a if (a and (not b or rng.random() < 0.5)) else b).pop(0))
+    return {"name": name, "params": params, "subs": [s0, s1], "steps": steps, "deaf": rng.random() < 0.3, "mode": mode}
+
+
 # ---- raising finally actions (oracle only) ----------------------------------------
 
 def run_raising_finalizer(rng, which, sync):
@@ -380,8 +628,10 @@ def run_faulty_upstream(rng, which, spec=None):
         spec = {"pre": rng.choice([[], [1], [1, "C"], ["E"], [0, None, "C"], [2, "E"]]),
                 "sub_raises": rng.random() < 0.4, "disp_raises": rng.random() < 0.3,
                 "handler": rng.random() < 0.6, "later": rng.choice([None, None, "C", "E", "N"]),
-                "dispose": rng.choice([0, 1, 2])}
-    calls, holder, escaped = [], [], []
+                "dispose": rng.choice([0, 1, 2]), "twice": rng.choice([None, None, "sequential", "overlapping"])}
+    twice = spec.get("twice")
+    n_sub = 2 if twice else 1
+    calls, holder, escaped, resources = [], [], [], []
 
     def subscribe(o, s=None):
         holder.append(o)
@@ -401,40 +651,78 @@ def run_faulty_upstream(rng, which, spec=None):
         return Disposable(d)
     src = rx.create(subscribe)
     action = lambda: calls.append(1)
+
+    def resource_factory():
+        resources.append([])
+        mine = resources[-1]
+        return Disposable(lambda: (mine.append(1), action()))
     if which == "finally_action":
         o = src.pipe(ops.finally_action(action))
     elif which == "do_finally":
         o = _do.do_finally(action)(src)
     else:
-        o = rx.using(lambda: Disposable(action), lambda r: src)
-    d = None
-    try:
-        if spec["handler"]:
-            d = o.subscribe(lambda v: None, lambda e: None, lambda: None)
-        else:
-            d = o.subscribe(lambda v: None)
-    except UserError as e:
-        escaped.append(("subscribe", e.code if hasattr(e, "code") else repr(e)))
-    if spec["later"] and holder:
+        o = rx.using(resource_factory, lambda r: src)
+    ds, ups = [None] * n_sub, [None] * n_sub
+
+    def phase_subscribe(i):
+        before = len(holder)
         try:
-            if spec["later"] == "C":
-                holder[0].on_completed()
-            elif spec["later"] == "E":
-                holder[0].on_error(UserError(12))
+            if spec["handler"]:
+                ds[i] = o.subscribe(lambda v: None, lambda e: None, lambda: None)
             else:
-                holder[0].on_next(5)
+                ds[i] = o.subscribe(lambda v: None)
         except UserError as e:
-            escaped.append(("later", repr(e)))
-    for _ in range(spec["dispose"]):
-        if d is not None:
+            escaped.append(("subscribe", e.code if hasattr(e, "code") else repr(e)))
+        ups[i] = holder[before] if len(holder) > before else None
+
+    def phase_later(i):
+        if spec["later"] and ups[i] is not None:
             try:
-                d.dispose()
+                if spec["later"] == "C":
+                    ups[i].on_completed()
+                elif spec["later"] == "E":
+                    ups[i].on_error(UserError(12))
+                else:
+                    ups[i].on_next(5)
             except UserError as e:
-                escaped.append(("dispose", repr(e)))
-    stopped = bool("C" in spec["pre"] or "E" in spec["pre"] or spec["later"] in ("C", "E")
-                   or (spec["dispose"] and d is not None) or d is None or spec["sub_raises"])
-    return {"operator": which, "spec": spec, "finalizer_calls": len(calls), "expected": 1 if stopped else 0,
-            "escaped": [list(map(str, e)) for e in escaped]}
+                escaped.append(("later", repr(e)))
+
+    def phase_dispose(i):
+        for _ in range(spec["dispose"]):
+            if ds[i] is not None:
+                try:
+                    ds[i].dispose()
+                except UserError as e:
+                    escaped.append(("dispose", repr(e)))
+
+    def stopped(i):
+        return bool("C" in spec["pre"] or "E" in spec["pre"] or spec["later"] in ("C", "E")
+                    or (spec["dispose"] and ds[i] is not None) or ds[i] is None or spec["sub_raises"])
+    after_first = None
+    if twice == "overlapping":
+        for ph in (phase_subscribe, phase_later, phase_dispose):
+            for i in range(n_sub):
+                ph(i)
+    else:
+        for i in range(n_sub):
+            phase_subscribe(i)
+            phase_later(i)
+            phase_dispose(i)
+            if i == 0 and twice:
+                after_first = len(calls)
+    expected = sum(1 for i in range(n_sub) if stopped(i))
+    out = {"operator": which, "spec": spec, "finalizer_calls": len(calls), "expected": expected,
+           "escaped": [list(map(str, e)) for e in escaped]}
+    if after_first is not None and after_first != (1 if stopped(0) else 0):
+        out["per_subscription"] = (f"after the first subscription's life the finalizer had run {after_first} times, expected "
+                                   f"{1 if stopped(0) else 0}")
+    if which == "using":
+        per = [len(r) for r in resources]
+        want = [1 if stopped(i) else 0 for i in range(n_sub)]
+        if per != want:
+            out["per_subscription"] = (f"resources created per subscribe(): {len(resources)}, disposals per resource {per}; "
+                                       f"expected one resource per subscription with disposals {want}")
+    return out
 
 
 # ---- the check ---------------------------------------------------------------------
@@ -484,6 +772,26 @@ def run(chk):
         if firsts:
             d["model_says"] = lib.coq_show("C40", IMPORTS, f"model {firsts[0][0]}", prelude)
         chk.tie_broken("correspondence K2 (effects, emissions, subscribe/unsubscribe/timer instants): machine vs implementation", d)
+    # one observable, several subscriptions / re-entrant dispose: effects attributed per subscription (oracle only)
+    plan_hist = {}
+    for name in NAMES:
+        for mode in ("sequential", "overlapping", "reentrant"):
+            for _ in range(max(10, ncase // 2)):
+                case = gen_plan(chk.rng, name, mode)
+                res = run_plan(case)
+                chk.cov["evaluations"] += 1
+                plan_hist[mode] = plan_hist.get(mode, 0) + 1
+                plan_hist["deaf_upstream"] = plan_hist.get("deaf_upstream", 0) + bool(case["deaf"])
+                plan_hist["disposed_inside_on_next"] = plan_hist.get("disposed_inside_on_next", 0) + any(res["self_disposed"])
+                v = oracle_plan(case, res)
+                if v:
+                    what = v.split(":")[0][:70]
+                    what = "".join(ch for ch in what if not ch.isdigit())
+                    chk.violation(f"C40|{name}|plan {mode}|{what}", {"plan": case, "what": v}, size=len(case["steps"]) +
+                                  sum(len(x["pre"]) for x in case["subs"]))
+                elif any(plan_stop(case, res, i) for i in range(len(case["subs"]))) and \
+                        any(kind == "effect" for (_, kind, _, _, _) in res["log"]):
+                    nontrivial.add("plan|" + json.dumps(case, sort_keys=True))
     # raising finally actions: exactly one invocation
     nr = 0
     for which in ("finally_action", "do_finally"):
@@ -506,11 +814,14 @@ def run(chk):
             kind = ("subscribe-raises" if sp["sub_raises"] else "") + ("|dispose-raises" if sp["disp_raises"] else "") \
                 + ("" if sp["handler"] else "|no-error-handler")
             fkinds[kind or "plain"] = fkinds.get(kind or "plain", 0) + 1
-            if r["finalizer_calls"] != r["expected"]:
-                chk.violation(f"C40|{which}|faulty upstream|{kind}|finalizer ran {r['finalizer_calls']}x",
+            fkinds["twice:" + str(sp.get("twice"))] = fkinds.get("twice:" + str(sp.get("twice")), 0) + 1
+            if r["finalizer_calls"] != r["expected"] or r.get("per_subscription"):
+                chk.violation(f"C40|{which}|faulty upstream|{kind}|{sp.get('twice') or 'once'}|finalizer ran "
+                              f"{r['finalizer_calls']}x of {r['expected']}",
                               {"faulty_upstream": r, "what": f"{which}: the finalizer ran {r['finalizer_calls']} times, "
                                f"expected {r['expected']} (upstream may raise from subscribe / dispose; subscriber "
-                               "may lack an error handler)"},
+                               f"may lack an error handler; subscriptions of the one observable: {2 if sp.get('twice') else 1}) "
+                               + r.get("per_subscription", "")},
                               size=len(sp["pre"]) + sp["dispose"] + (1 if sp["later"] else 0))
             elif r["expected"] == 1 and r["escaped"]:
                 nontrivial.add("faulty|" + json.dumps(r, sort_keys=True, default=str))
@@ -525,9 +836,17 @@ def run(chk):
                        "oracle held; plus raising finally actions (oracle only); plus faulty upstreams (oracle only): "
                        "prefix delivered inside subscribe() x subscribe function raising x returned disposable "
                        "raising x subscriber with/without an error handler x a later notification x 0-2 disposals "
-                       "-- finalizer count must be exactly 1 once the subscription stopped")
+                       "-- finalizer count must be exactly 1 once the subscription stopped; half of them with the whole "
+                       "procedure run TWICE on the one observable (sequentially / overlapping; using: disposals counted "
+                       "per resource).  Per-subscription plans (oracle only), per operator x {sequential, overlapping, "
+                       "reentrant}: one built observable, 1-2 subscriptions each with its own upstream timeline "
+                       "(cold prefix, 0-4 elements, terminal or none, non-conforming tails), a dispose step (25-45%), "
+                       "a dispose from inside the k-th on_next (reentrant: always; else 20%), upstream deaf to "
+                       "dispose (30-40%); effects attributed per subscription (numbered resources; finally actions "
+                       "matched to each subscription's stopping step)")
     chk.cov["input_distribution"] = {"per_operator": per_op, "raising_finalizer_runs": nr,
-                                     "faulty_upstream_runs": nf, "faulty_upstream_kinds": fkinds, **hist}
+                                     "faulty_upstream_runs": nf, "faulty_upstream_kinds": fkinds,
+                                     "per_subscription_plans": plan_hist, **hist}
     chk.add_samples([{"case": c[0], "trace": c[1]} for c in cases[:: max(1, len(cases) // 5)]][:5])
     return chk.finish(
         trusted_extra=["multi-source K2 driver harness/k2m.py (boundary log, proxy scheduler, canonical per-instant "
@@ -538,7 +857,10 @@ def run(chk):
                      "subscribe/unsubscribe/timer/effect events; that the finalizer runs AFTER the terminal "
                      "notification inside that instant is checked by the oracle on the raw log only",
                      "raising finally actions escape into the emitter and are outside the machine model: covered by "
-                     "the oracle only (exactly one invocation)"])
+                     "the oracle only (exactly one invocation)",
+                     "per-subscription plans: a finally action is one shared callable, so its runs are attributed to "
+                     "subscriptions by the step at which they happen (each step concerns exactly one subscription); "
+                     "every operator here subscribes upstream at most once per subscribe(), synchronously"])
 
 
 def replay(chk, path):
@@ -551,7 +873,17 @@ def replay(chk, path):
         f = d["faulty_upstream"]
         r = run_faulty_upstream(None, f["operator"], f["spec"])
         print(json.dumps(r, indent=1))
-        if r["finalizer_calls"] != r["expected"]:
+        if r["finalizer_calls"] != r["expected"] or r.get("per_subscription"):
+            print(f"VIOLATION property=C40 replay={path}")
+            return 1
+        return 0
+    if "plan" in d:
+        case = d["plan"]
+        res = run_plan(case)
+        v = oracle_plan(case, res)
+        print(json.dumps({"plan": case, "log (step, kind, a, b, subscriber/resource)": [list(map(str, x)) for x in res["log"]],
+                          "oracle": v or "holds"}, indent=1))
+        if v:
             print(f"VIOLATION property=C40 replay={path}")
             return 1
         return 0
